@@ -305,3 +305,53 @@ def run(ctx, model_ok):
             if (c["stdout"], c["status"]) != (out, st) or (st == "103" and "'k2' is not defined" not in c["stderr"]):
                 ctx.violation(f"names declared by earlier items of a pattern and the computed keys of later items: expected stdout {out!r}, status {st}", src, {"cli": c})
     tie.report_disagreements(ctx, cdis, "pattern_keys")
+
+    # parameters are declarations of the call's own scope — however the function was written (statement, expression, method,
+    # returned closure) and whatever the parameter is (plain, pattern, rest): a name twice among them is reported when they
+    # are bound, a body may not declare a parameter's name again, but may declare any OTHER name that exists outside (the
+    # function's own name included); and a callee sees its defining scopes only, never the caller's locals
+    pc = []
+    DUPS = [("n, n", "1, 2"), ("n, m, n", "1, 2, 3"), ("n, [n]", "1, [2]"), ("[n, n]", "[1, 2]"), ("n, {n}", '1, {"n": 2}'),
+            ('{"k": n}, n', '{"k": 1}, 2'), ("n, ..n", "1, 2"), ("[n, ..n]", "[1, 2]"), ("n, [m, [n]]", "1, [2, [3]]"), ("{n, ..n}", '{"n": 1}')]
+    for params, args in DUPS:
+        forms = [("expression", f"g := fn ({params}) {{\n    return 0\n}}\nprint(\"before\")\ng({args})\nprint(\"after\")\n"),
+                 ("method", f"o := {{\"g\": fn ({params}) {{\n    return 0\n}}}}\nprint(\"before\")\no.g({args})\nprint(\"after\")\n"),
+                 ("returned", f"fn mk() {{\n    return fn ({params}) {{\n        return 0\n    }}\n}}\ng := mk()\nprint(\"before\")\ng({args})\nprint(\"after\")\n"),
+                 ("immediately", f"print(\"before\")\n(fn ({params}) {{\n    return 0\n}})({args})\nprint(\"after\")\n"),
+                 ("second-call", f"g := fn ({params}) {{\n    return 0\n}}\nh := g\nprint(\"before\")\nh({args})\nprint(\"after\")\n")]
+        for form, src in forms:
+            pc.append((f"dup-parameter:{form}:{params}", src, "before\n", "103", ["'n' is"]))
+    for decl, what in (("n := 5", "parameter"), ("[n] := [5]", "parameter-by-pattern"), ("fn n() {\n        return 0\n    }", "parameter-by-fn")):
+        pc.append((f"body-redeclares-{what}", f"g := fn (n) {{\n    {decl}\n    return n\n}}\nprint(\"before\")\ng(1)\nprint(\"after\")\n", "before\n", "103",
+                   ["'n' is already defined in the current scope"]))
+        pc.append((f"body-redeclares-rest-{what}", f"fn g(a, ..n) {{\n    {decl}\n    return n\n}}\nprint(\"before\")\ng(1)\nprint(\"after\")\n", "before\n", "103",
+                   ["'n' is already defined in the current scope"]))
+    pc += [
+        ("body-may-declare-own-name", "fn total(xs) {\n    total := 0\n    for [i, x] in xs {\n        total += x\n    }\n    return total\n}\nprint(total([1, 2, 3]))\nprint(total([4]))\n", "6\n4\n", "0", []),
+        ("parameter-may-have-own-name", "fn f(f) {\n    return f\n}\nprint(f(3))\nprint(f(4))\n", "3\n4\n", "0", []),
+        ("body-may-declare-outer-name", "count := 1\nfn reset() {\n    count := 5\n    return count\n}\nprint(reset())\nprint(count)\n", "5\n1\n", "0", []),
+        ("expression-body-may-declare-own-variable", "g := fn () {\n    g := 2\n    return g\n}\nprint(g())\nprint(g())\n", "2\n2\n", "0", []),
+        ("recursive-own-name-still-visible", "fn fact(n) {\n    if n == 0 {\n        return 1\n    }\n    return n * fact(n - 1)\n}\nprint(fact(5))\n", "120\n", "0", []),
+        ("callee-does-not-see-caller-local", "fn show() {\n    return budget\n}\nfn run() {\n    budget := 42\n    return show()\n}\nprint(\"before\")\nprint(run())\n", "before\n", "103", ["'budget' is not defined"]),
+        ("callee-does-not-see-block-local", "fn show() {\n    return budget\n}\n{\n    budget := 42\n    print(\"before\")\n    print(show())\n}\n", "before\n", "103", ["'budget' is not defined"]),
+        ("callee-does-not-assign-caller-local", "fn spend() {\n    budget = 0\n    return 0\n}\nfn run() {\n    budget := 42\n    spend()\n    return budget\n}\nprint(\"before\")\nprint(run())\n", "before\n", "103", ["'budget' is not defined"]),
+        ("callee-does-not-see-loop-local", "fn show() {\n    return item\n}\nprint(\"before\")\nfor [i, item] in [1] {\n    print(show())\n}\n", "before\n", "103", ["'item' is not defined"]),
+        ("callee-does-not-see-callers-parameter", "fn show() {\n    return p\n}\nfn run(p) {\n    return show()\n}\nprint(\"before\")\nprint(run(1))\n", "before\n", "103", ["'p' is not defined"]),
+        ("callback-does-not-see-callers-local", "fn apply(f) {\n    hidden := 1\n    return f()\n}\nprint(\"before\")\nprint(apply(fn () {\n    return hidden\n}))\n", "before\n", "103", ["'hidden' is not defined"]),
+    ]
+    pimpl, pdis = tie.run(ctx, [c[1] for c in pc], "call_scope", model_ok, project=tie.proj_full)
+    pbad = set()
+    for (key, src, out, st, must), r in zip(pc, pimpl):
+        ctx.nontrivial(("call-scope", key))
+        ctx.dist("call_scope:" + key.split(":")[0])
+
+        def wrong(x):
+            return (x["stdout"], x["status"]) != (out, st) or any(m not in x["stderr"] for m in must)
+        if wrong(r):
+            c = core.run_cli(src)
+            if wrong(c):
+                pbad.add(src)
+                if len(pbad) <= 4:
+                    ctx.violation(f"parameters and body declarations live in the call's own scope, a callee sees only its defining scopes ({key}): "
+                                  f"expected stdout {out!r}, status {st}" + (f", a diagnostic containing {must}" if must else ""), src, {"cli": c})
+    tie.report_disagreements(ctx, [d for d in pdis if d[0] not in pbad], "call_scope")
